@@ -12,10 +12,15 @@ type HashingReaderWrapper struct {
 	Reader             *bufio.Reader
 	CalculateSignature bool
 	hash               hash.Hash
+	// BytesRead counts the bytes consumed so far (shared between copies of the wrapper), nil if not tracked
+	BytesRead *int64
 }
 
 func (t *HashingReaderWrapper) Read(bytes []byte) (int, error) {
 	byteCount, err := t.Reader.Read(bytes)
+	if t.BytesRead != nil {
+		*t.BytesRead += int64(byteCount)
+	}
 	if t.CalculateSignature == true && err == nil {
 		if byteCount == len(bytes) {
 			t.hash.Write(bytes)
@@ -45,12 +50,23 @@ func (t *HashingReaderWrapper) FinishHashCalculation() []byte {
 	return t.hash.Sum(nil)
 }
 
+// Position returns the number of bytes consumed so far (0 if not tracked)
+func (t *HashingReaderWrapper) Position() int64 {
+	if t.BytesRead == nil {
+		return 0
+	}
+	return *t.BytesRead
+}
+
 func (t HashingReaderWrapper) Reset(reader io.Reader) {
 	t.Reader.Reset(reader)
 }
 
 func (t *HashingReaderWrapper) Discard(offset int64) error {
-	_, err := t.Reader.Discard(int(offset))
+	discarded, err := t.Reader.Discard(int(offset))
+	if t.BytesRead != nil {
+		*t.BytesRead += int64(discarded)
+	}
 	if err != nil {
 		return err
 	}
